@@ -9,10 +9,13 @@
 package store
 
 //@ ghost $savedData scalar Int
+// number of snapshots handed to the store (every call of DataStore.Save counts, whatever it returns)
+//@ ghost $saveCalls scalar Int
 
 //@ func interface (github.com/Flowpack/prunner/store.DataStore).Save
 //@   ensures [saved] res == nil ==> $savedData == addr(data)
-//@   modifies $savedData
+//@   ensures [called] $saveCalls == old($saveCalls) + 1
+//@   modifies $savedData, $saveCalls
 
 //@ func interface (github.com/Flowpack/prunner/store.DataStore).Load
 //@   ensures [loaded] res1 == nil ==> res0 != nil
